@@ -4,7 +4,8 @@ use crate::xs::{self, Step};
 use rspirv::sr::storage::{Storage, Token};
 use serde_json::json;
 
-/// value compared on `key` only; key 255 is unequal to itself (NaN-like)
+/// value compared on `key` only; key 255 is unequal to itself (NaN-like); key 254 as the LEFT operand equals
+/// everything (asymmetric equality: `stored == argument` and `argument == stored` differ)
 #[derive(Clone, Copy, Debug)]
 pub struct Val {
     key: u8,
@@ -12,7 +13,7 @@ pub struct Val {
 }
 impl PartialEq for Val {
     fn eq(&self, o: &Val) -> bool {
-        self.key != 255 && self.key == o.key
+        self.key == 254 || (self.key != 255 && self.key == o.key)
     }
 }
 fn same(a: &Val, b: &Val) -> bool {
@@ -32,6 +33,7 @@ pub fn alphabet() -> Vec<Op> {
         Val { key: 1, tag: 0 },
         Val { key: 2, tag: 0 },
         Val { key: 255, tag: 0 },
+        Val { key: 254, tag: 0 },
     ];
     vals.iter().map(|v| Op::Append(*v)).chain(vals.iter().map(|v| Op::Fetch(*v))).collect()
 }
@@ -135,8 +137,8 @@ pub fn run_hist(h: &[Op]) -> Step {
 pub fn run(tier: Tier) -> Run {
     let mut run = Run::new("C19", tier, "model_checking");
     let alpha = alphabet();
-    let d_enum = tier.pick(6, 7);
-    let d_clos = tier.pick(7, 9);
+    let d_enum = tier.pick(5, 6);
+    let d_clos = tier.pick(6, 8);
     let a = xs::enumerate(&alpha, d_enum, &run_hist);
     let b = xs::closure(&alpha, d_clos, 5_000_000, &run_hist);
     // ---- non-initial states: storages already holding k distinct values (k up to K), then every 2-step continuation
@@ -188,7 +190,7 @@ pub fn run(tier: Tier) -> Run {
     run.set("traces_validated_against_impl", json!(a.histories_replayed + b.histories_replayed + big_n));
     run.set("max_depth", json!(b.max_depth.max(a.max_depth)));
     run.set("bounds", json!({"alphabet": alpha.len(), "full_enumeration_depth": d_enum, "closure_depth": d_clos,
-        "values": "5 values: two equal-by-key with different tags, two distinct, one unequal to itself", "prefilled_storages": format!("k = 0..{} distinct values, then every 2-step continuation over the base alphabet + fetch/append of each stored value", kmax)}));
+        "values": "6 values: two equal-by-key with different tags, two distinct, one unequal to itself, one whose equality is asymmetric", "prefilled_storages": format!("k = 0..{} distinct values, then every 2-step continuation over the base alphabet + fetch/append of each stored value", kmax)}));
     run.set("bound_completed", json!({"enumeration_depth": a.depth_completed, "closure_depth": if b.depth_completed == usize::MAX { d_clos } else { b.depth_completed }}));
     run.set("enumeration", json!({"states": a.states, "transitions": a.transitions}));
     run.set("closure", json!({"states": b.states, "transitions": b.transitions, "per_depth_states": b.per_depth_states}));
